@@ -111,9 +111,10 @@ impl Fails {
     /// failures with *different* kinds of detail (text up to the first ';')
     /// go first, so that two distinct defects behind one oracle are both
     /// among the printed witnesses.
-    fn flush(&self, ctx: &Ctx) {
+    fn flush(&self, ctx: &Ctx) -> u64 {
         let mut v = std::mem::take(&mut *self.v.lock().unwrap());
         v.sort();
+        let n = v.len() as u64;
         let mut lead: Vec<usize> = Vec::new();
         let mut seen: BTreeMap<&'static str, Vec<String>> = BTreeMap::new();
         for (i, (_, oracle, _, detail)) in v.iter().enumerate() {
@@ -125,6 +126,15 @@ impl Fails {
         for (i, (_, oracle, wit, detail)) in v.into_iter().enumerate() {
             if !lead.contains(&i) { ctx.fail(oracle, wit, detail) }
         }
+        n
+    }
+    /// Reports the failures and records them as an outcome class of the
+    /// space, so that a space in which the library misbehaves on every case
+    /// is never mistaken for a vacuous one (that would turn real violations
+    /// into a machinery exit).
+    fn flush_into(&self, ctx: &Ctx, sp: &rpki_verif::Space) {
+        let n = self.flush(ctx);
+        sp.outcomes_n("oracle-violated", n);
     }
 }
 
@@ -353,16 +363,15 @@ fn space_deltas(ctx: &Ctx) {
         sp.nontrivial(nt);
         sp.merge_outcomes(&oc);
     });
-    fails.flush(ctx);
+    fails.flush_into(ctx, &sp);
     // a notification whose delta list was dropped as oversized retains nothing
     {
-        let nf = mk_notification(&[1, 5, 9]);
-        let mut xml = Vec::new();
-        nf.write_xml(&mut xml).unwrap();
         for limit in [None, Some(0usize), Some(2)] {
             sp.eval();
             sp.outcome("vacuous-success");
             ctx.check("C09.deltas.verdict", || format!("parse_limited(2) of serials=[1,5,9] then limit={limit:?}"), || {
+                let mut xml = Vec::new();
+                mk_notification(&[1, 5, 9]).write_xml(&mut xml).map_err(|e| e.to_string())?;
                 let mut p = NotificationFile::parse_limited(xml.as_slice(), 2).map_err(|e| e.to_string())?;
                 if p.delta_status().is_ok() { return Err("delta list of 3 not reported oversized at limit 2".into()) }
                 if !p.sort_and_verify_deltas(limit) { return Err("no deltas retained but reported failure".into()) }
@@ -425,7 +434,7 @@ fn space_origins(ctx: &Ctx) {
             });
         });
     }
-    fails.flush(ctx);
+    fails.flush_into(ctx, &sp);
     sp.sample_str(|| format!("base={} snapshot={} deltas=[{}] -> expected false", bases[0], uris[0], uris[6]));
     sp.done(true, &format!("{} bases x 9 snapshot URIs x all delta sequences of length <= {max_deltas} over 9 URIs", bases.len()));
 }
@@ -468,26 +477,22 @@ fn roundtrip_notification(nf: &NotificationFile) -> Result<Vec<u8>, String> {
 
 fn space_rt_notification(ctx: &Ctx) {
     let sp = ctx.space("roundtrip.notification",
-        "NotificationFile::new -> write_xml -> parse: (i) session{nil,max,fixed} x serial{0,1,2^63,MAX} x 7 snapshot URIs x 3 hashes x {0,1 delta}; (ii) every sequence of 0..3 deltas over serial{0,1,2,MAX-1,MAX} x URI x hash; (iii) a 6000-delta file (> 1 MB, each element small); non-trivial = values whose XML needed attribute escaping (contains '&'), measured on the written bytes");
+        "NotificationFile::new -> write_xml -> parse: (i) session{nil,max,fixed} x serial{0,1,2^63,MAX} x 7 snapshot URIs x 3 hashes x {0,1 delta}; (ii) every sequence of 0..3 deltas over serial{0,1,2,MAX-1,MAX} x URI x hash; (iii) a 6000-delta file (> 1 MB, each element small); non-trivial = values with at least one URI that needs attribute escaping (contains & or '), measured on the value");
     let nontriv = AtomicU64::new(0);
     let fails = Fails::new();
-    let run = |order: u64, wit: &dyn Fn() -> String, nf: &NotificationFile| {
+    // the outcome class is a property of the value, not of what the library did with it
+    let run = |order: u64, wit: &dyn Fn() -> String, escapes: bool, build: &dyn Fn() -> NotificationFile| {
         sp.eval();
-        match guard(|| roundtrip_notification(nf)) {
-            Ok(Ok(xml)) => {
-                // "&" can only appear in the output as the start of an escape
-                if xml.contains(&b'&') { nontriv.fetch_add(1, Ordering::Relaxed); sp.outcome("escaped-uri") } else { sp.outcome("plain-uri") }
-            }
-            Ok(Err(d)) => fails.push(order, "C09.roundtrip.notification", wit(), d),
-            Err(p) => fails.push(order, "C09.roundtrip.notification", wit(), p),
-        }
+        if escapes { nontriv.fetch_add(1, Ordering::Relaxed); sp.outcome("escaped-uri") } else { sp.outcome("plain-uri") }
+        fails.check(order, "C09.roundtrip.notification", wit, || roundtrip_notification(&build()).map(|_| ()));
     };
+    let esc = |u: usize| HTTPS_URIS[u].contains(['&', '\'']);
     // (i) header product
     let one = [DeltaSpec { serial: 1, uri: 0, hash: 2 }];
     let mut n_hdr = 0u64;
     for sess in 0..3 { for &serial in &SERIALS { for su in 0..HTTPS_URIS.len() { for sh in 0..3 { for ds in [&one[..0], &one[..]] {
         n_hdr += 1;
-        run(n_hdr, &|| show_notification(sess, serial, su, sh, ds), &build_notification(sess, serial, su, sh, ds));
+        run(n_hdr, &|| show_notification(sess, serial, su, sh, ds), esc(su) || ds.iter().any(|d| esc(d.uri)), &|| build_notification(sess, serial, su, sh, ds));
     }}}}}
     // (ii) delta sequences
     let dserials: [u64; 5] = [0, 1, 2, MAX - 1, MAX];
@@ -507,25 +512,24 @@ fn space_rt_notification(ctx: &Ctx) {
             let mut ix = Vec::new();
             seq_at(k, *max_len, idx, &mut ix);
             let ds: Vec<DeltaSpec> = ix.iter().map(|&i| alpha[i]).collect();
-            run(((pi as u64 + 1) << 40) | idx, &|| show_notification(2, 5, 0, 2, &ds), &build_notification(2, 5, 0, 2, &ds));
+            run(((pi as u64 + 1) << 40) | idx, &|| show_notification(2, 5, 0, 2, &ds), ds.iter().any(|d| esc(d.uri)), &|| build_notification(2, 5, 0, 2, &ds));
         });
         bound.push(text.to_string());
     }
     // (iii) more than MAX_HEADER_SIZE in total, every element small
     {
         let h = hashes()[2];
-        let nf = NotificationFile::new(sessions()[2], 6000, UriAndHash::new(https(HTTPS_URIS[0]), h),
-            (1..=6000u64).map(|i| DeltaInfo::new(i, https(&format!("https://h.example/{i:0100}/delta.xml")), h)).collect());
-        run(9 << 40, &|| "6000 deltas with 100-digit path segments (file > 1 MB)".to_string(), &nf);
+        run(9 << 40, &|| "6000 deltas with 100-digit path segments (file > 1 MB)".to_string(), false, &|| NotificationFile::new(sessions()[2], 6000, UriAndHash::new(https(HTTPS_URIS[0]), h),
+            (1..=6000u64).map(|i| DeltaInfo::new(i, https(&format!("https://h.example/{i:0100}/delta.xml")), h)).collect()));
         bound.push("one 6000-delta file".into());
     }
-    fails.flush(ctx);
+    fails.flush_into(ctx, &sp);
     sp.nontrivial(nontriv.load(Ordering::Relaxed));
-    sp.sample_str(|| {
+    sp.sample_str(|| guard(|| {
         let mut xml = Vec::new();
-        build_notification(0, MAX, 4, 1, &one).write_xml(&mut xml).unwrap();
+        let _ = build_notification(0, MAX, 4, 1, &one).write_xml(&mut xml);
         String::from_utf8_lossy(&xml).into_owned()
-    });
+    }).unwrap_or_else(|p| p));
     sp.done(true, &bound.join("; "));
 }
 
@@ -673,10 +677,10 @@ fn space_rt_snapshot(ctx: &Ctx) {
         run(10 << 40, &|| "one publish element of 1500000 octets (> MAX_HEADER_SIZE, < MAX_FILE_SIZE) followed by a 3-octet one".into(), sess[2], 7, &want, 4096);
         bound.push("2 big files".into());
     }
-    fails.flush(ctx);
+    fails.flush_into(ctx, &sp);
     sp.sample_str(|| {
         let mut xml = Vec::new();
-        Snapshot::new(sess[2], 1, vec![PublishElement::new(rsync(RSYNC_URIS[4]), DataSpec { len: 4, pat: 2 }.bytes()), PublishElement::new(rsync(RSYNC_URIS[0]), Bytes::new())]).write_xml(&mut xml).unwrap();
+        let _ = Snapshot::new(sess[2], 1, vec![PublishElement::new(rsync(RSYNC_URIS[4]), DataSpec { len: 4, pat: 2 }.bytes()), PublishElement::new(rsync(RSYNC_URIS[0]), Bytes::new())]).write_xml(&mut xml);
         String::from_utf8_lossy(&xml).into_owned()
     });
     sp.set("read_chunk_sizes", json!(CHUNKS));
@@ -763,10 +767,10 @@ fn space_rt_delta(ctx: &Ctx) {
         });
         bound.push("1 big file".into());
     }
-    fails.flush(ctx);
+    fails.flush_into(ctx, &sp);
     sp.sample_str(|| {
         let mut xml = Vec::new();
-        Delta::new(sess[1], MAX, vec![ElSpec::Update { uri: 3, hash: 2, data: DataSpec { len: 2, pat: 1 } }.to_delta_element(), ElSpec::Withdraw { uri: 2, hash: 0 }.to_delta_element()]).write_xml(&mut xml).unwrap();
+        let _ = Delta::new(sess[1], MAX, vec![ElSpec::Update { uri: 3, hash: 2, data: DataSpec { len: 2, pat: 1 } }.to_delta_element(), ElSpec::Withdraw { uri: 2, hash: 0 }.to_delta_element()]).write_xml(&mut xml);
         String::from_utf8_lossy(&xml).into_owned()
     });
     sp.done(true, &bound.join("; "));
@@ -822,6 +826,41 @@ fn skeleton(kind: Kind) -> Vec<u8> {
 <!-- tail -->
 "),
     }.into_bytes()
+}
+
+/// Document shapes per file type: the full skeleton plus shapes that take
+/// the other paths through the element loop: self-closing root, root with
+/// zero children, no XML declaration with self-closing children only and a
+/// PI + whitespace after the root, and start/end-tag pairs without any
+/// whitespace. Not all of them are valid files (a notification needs a
+/// snapshot; a PI after the root is refused) - what matters is which reads
+/// the parser performs before it finds out.
+fn shapes(kind: Kind) -> Vec<(&'static str, Vec<u8>)> {
+    let ns = "http://www.ripe.net/rpki/rrdp";
+    let decl = "<?xml version=\"1.0\" encoding=\"UTF-8\"?>\n";
+    let root = kind.name();
+    let attrs = format!("xmlns=\"{ns}\" version=\"1\" session_id=\"{SID}\" serial=\"3\"");
+    let (selfclosing_children, pair_children) = match kind {
+        Kind::Notification => (
+            format!("<snapshot uri=\"https://h.example/s.xml\" hash=\"{H1}\"/><delta serial=\"3\" uri=\"https://h.example/3.xml\" hash=\"{H2}\"/>"),
+            format!("<snapshot uri=\"https://h.example/s.xml\" hash=\"{H1}\"></snapshot><delta serial=\"3\" uri=\"https://h.example/3.xml\" hash=\"{H2}\"></delta>"),
+        ),
+        Kind::Snapshot => (
+            "<publish uri=\"rsync://h.example/m/a.cer\"/><publish uri=\"rsync://h.example/m/b.cer\"/>".to_string(),
+            "<publish uri=\"rsync://h.example/m/a.cer\"></publish><publish uri=\"rsync://h.example/m/b.cer\">QUJD</publish>".to_string(),
+        ),
+        Kind::Delta => (
+            format!("<withdraw uri=\"rsync://h.example/m/a.cer\" hash=\"{H1}\"/><publish uri=\"rsync://h.example/m/b.cer\"/><publish uri=\"rsync://h.example/m/c.cer\" hash=\"{H2}\"/>"),
+            format!("<withdraw uri=\"rsync://h.example/m/a.cer\" hash=\"{H1}\"></withdraw><publish uri=\"rsync://h.example/m/b.cer\"></publish><publish uri=\"rsync://h.example/m/c.cer\" hash=\"{H2}\">QUJD</publish>"),
+        ),
+    };
+    vec![
+        ("full", skeleton(kind)),
+        ("self-closing-root", format!("<{root} {attrs}/>\n<!-- tail -->\n").into_bytes()),
+        ("empty-root", format!("{decl}<{root} {attrs}></{root}>\n").into_bytes()),
+        ("self-closing-children", format!("<{root} {attrs}>{selfclosing_children}</{root}>\n<?p x?>\n \n").into_bytes()),
+        ("pair-children", format!("{decl}<{root} {attrs}>{pair_children}</{root}>").into_bytes()),
+    ]
 }
 
 /// Per insertion offset p (0..=len): grammar class of the gap before byte p,
@@ -998,86 +1037,96 @@ struct Case { p: usize, ri: usize, bufcap: usize }
 fn space_hostile_endless(ctx: &Ctx) {
     let thorough = ctx.tier.is_thorough();
     let sp = ctx.space("hostile.endless",
-        "skeleton document per file type x insertion offset x run kind from a generator that never ends, read through counting reader + BufReader: no panic, and octets pulled <= start of the element containing the insertion + configured limit + BufReader capacity (generator capped at insertion + 4 x limit; reaching the cap is a violation). quick: under the 1 MB limit every offset x 3 kinds + all 24 kinds at the first offset of every grammar item, under the 100 MB limit 3 kinds at the first offset of every grammar item; thorough: every offset x 24 kinds (1 MB, plus two more buffer sizes for 8 kinds) and every offset x 2 kinds + 8 kinds at item-first offsets (100 MB). non-trivial = cases the parser only left because the limit tripped (pulled >= limit)");
+        "file type x document shape (full skeleton, self-closing root, root without children, self-closing children + PI and whitespace after the root and no XML declaration, start/end-tag pairs without whitespace) x insertion offset x run kind from a generator that never ends, read through counting reader + BufReader: no panic, and octets pulled <= start of the element containing the insertion + configured limit + BufReader capacity (generator capped at insertion + 4 x limit; reaching the cap is a violation). quick, full skeleton: under the 1 MB limit every offset x 3 kinds + all 24 kinds at the first offset of every grammar item, under the 100 MB limit 3 kinds at item-first offsets; quick, other shapes: item-first offsets x 24 kinds (1 MB) / x 2 kinds (100 MB). thorough, full skeleton: every offset x 24 kinds (1 MB, plus two more buffer sizes for 8 kinds) and every offset x 2 kinds + 8 kinds at item-first offsets (100 MB); thorough, other shapes: every offset x 24 kinds (1 MB) and every offset x 2 kinds + 4 kinds at item-first offsets (100 MB). non-trivial = cases the parser only left because the limit tripped (pulled >= limit)");
     let blocks: Vec<Vec<u8>> = RUNS.iter().map(|r| block_of(r.unit)).collect();
     let mut bound: Vec<String> = Vec::new();
     let mut classes_seen: BTreeMap<&'static str, u64> = BTreeMap::new();
+    let mut shape_facts: BTreeMap<String, serde_json::Value> = BTreeMap::new();
     let mut max_peak = 0u64;
     let mut max_over: (i64, String) = (i64::MIN, String::new());
-    let kinds = [Kind::Notification, Kind::Snapshot, Kind::Delta];
-    let docs: Vec<Vec<u8>> = kinds.iter().map(|k| skeleton(*k)).collect();
-    let lays: Vec<DocLayout> = docs.iter().map(|d| layout(d)).collect();
-    for (ki, kind) in kinds.into_iter().enumerate() {
-        let doc = &docs[ki];
-        let lay = &lays[ki];
-        // bound 0: the skeleton itself must be accepted
-        if let Err(e) = parse_as(kind, doc.as_slice()) { ctx.machinery_error(format!("{} skeleton does not parse: {e}", kind.name())) }
-        for p in 0..=doc.len() { *classes_seen.entry(lay.class[p]).or_insert(0) += 1 }
-        let mut cases: Vec<Case> = Vec::new();
-        let (mut n_light, mut n_heavy) = (0u64, 0u64);
-        let mut first_seen: BTreeMap<(&'static str, usize), ()> = BTreeMap::new();
-        for p in 0..=doc.len() {
-            let first = first_seen.insert((lay.class[p], lay.item[p]), ()).is_none();
-            let light = kind == Kind::Notification || p <= lay.root_gt;
-            let mut add = |ri: usize, bufcap: usize| {
-                if limit_at(kind, lay, p, RUNS[ri].unit) == HEADER_LIMIT { n_light += 1 } else { n_heavy += 1 }
-                cases.push(Case { p, ri, bufcap });
-            };
-            if light {
-                if thorough {
-                    for ri in 0..RUNS.len() { add(ri, 8192) }
-                    for ri in HEAVY_RUNS { add(ri, 64); add(ri, 1 << 16) }
-                } else {
-                    for ri in 0..RUNS.len() { if first || [0usize, 1, 6].contains(&ri) { add(ri, 8192) } }
-                    if p % 8 == 0 { add(1, 64); add(6, 64) }
+    let mut violated = 0u64;
+    for kind in [Kind::Notification, Kind::Snapshot, Kind::Delta] {
+        let (mut n_light, mut n_heavy, mut n_offsets) = (0u64, 0u64, 0u64);
+        for (shape, doc) in shapes(kind) {
+            let doc = &doc;
+            let lay = &layout(doc);
+            let full = shape == "full";
+            // bound 0, recorded as a fact: what the parser says to the unmodified shape
+            let accepted = match guard(|| parse_as(kind, doc.as_slice())) { Ok(Ok(n)) => format!("accepted ({n} elements)"), Ok(Err(e)) => format!("rejected: {e}"), Err(p) => p };
+            shape_facts.insert(format!("{}/{shape}", kind.name()), json!({"octets": doc.len(), "unmodified": accepted}));
+            for p in 0..=doc.len() { *classes_seen.entry(lay.class[p]).or_insert(0) += 1 }
+            n_offsets += doc.len() as u64 + 1;
+            let mut cases: Vec<Case> = Vec::new();
+            let mut first_seen: BTreeMap<(&'static str, usize), ()> = BTreeMap::new();
+            for p in 0..=doc.len() {
+                let first = first_seen.insert((lay.class[p], lay.item[p]), ()).is_none();
+                let light = kind == Kind::Notification || p <= lay.root_gt;
+                let mut add = |ri: usize, bufcap: usize| {
+                    if limit_at(kind, lay, p, RUNS[ri].unit) == HEADER_LIMIT { n_light += 1 } else { n_heavy += 1 }
+                    cases.push(Case { p, ri, bufcap });
+                };
+                match (full, thorough, light) {
+                    (true, true, true) => {
+                        for ri in 0..RUNS.len() { add(ri, 8192) }
+                        for ri in HEAVY_RUNS { add(ri, 64); add(ri, 1 << 16) }
+                    }
+                    (true, false, true) => {
+                        for ri in 0..RUNS.len() { if first || [0usize, 1, 6].contains(&ri) { add(ri, 8192) } }
+                        if p % 8 == 0 { add(1, 64); add(6, 64) }
+                    }
+                    (true, true, false) => for ri in HEAVY_RUNS { if first || [0usize, 6].contains(&ri) { add(ri, 8192) } },
+                    (true, false, false) => if first { for ri in [0usize, 1, 6] { add(ri, 8192) } },
+                    (false, true, true) => for ri in 0..RUNS.len() { add(ri, 8192) },
+                    (false, false, true) => if first { for ri in 0..RUNS.len() { add(ri, 8192) } },
+                    (false, true, false) => for ri in [0usize, 1, 6, 7] { if first || [0usize, 6].contains(&ri) { add(ri, 8192) } },
+                    (false, false, false) => if first { for ri in [0usize, 6] { add(ri, 8192) } },
                 }
-            } else if thorough {
-                for ri in HEAVY_RUNS { if first || [0usize, 6].contains(&ri) { add(ri, 8192) } }
-            } else if first {
-                for ri in [0usize, 1, 6] { add(ri, 8192) }
             }
-        }
-        // run in parallel, judge sequentially in enumeration order (deterministic output)
-        let results: Vec<Hostile> = cases.par_iter().map(|c| {
-            let r = &RUNS[c.ri];
-            let limit = limit_at(kind, lay, c.p, r.unit);
-            run_hostile(kind, &doc[..c.p], r.head, &blocks[c.ri], u64::MAX, b"", c.bufcap, c.p as u64 + 4 * limit)
-        }).collect();
-        let mut oc: BTreeMap<&'static str, u64> = BTreeMap::new();
-        let mut nt = 0u64;
-        for (c, h) in cases.iter().zip(&results) {
-            let r = &RUNS[c.ri];
-            let (p, bufcap) = (c.p, c.bufcap);
-            let limit = limit_at(kind, lay, p, r.unit);
-            let bound = lay.start[p] as u64 + limit + bufcap as u64;
-            let wit = || format!("{} pos={p} ({}) run={} endless bufcap={bufcap}", kind.name(), lay.class[p], r.name);
-            max_peak = max_peak.max(h.peak);
-            let over = h.pulled as i64 - (lay.start[p] as u64 + limit) as i64;
-            if over > max_over.0 { max_over = (over, wit()) }
-            let by_limit = h.pulled >= limit;
-            if by_limit { nt += 1 }
-            let class = match &h.result {
-                Err(panic) => { ctx.fail("C09.hostile.nopanic", wit(), panic.clone()); "panic" }
-                Ok(Ok(_)) => if by_limit { "ok-after-limit" } else { "ok-early" },
-                Ok(Err(_)) => if by_limit { "error-at-limit" } else { "error-early" },
-            };
-            *oc.entry(class).or_insert(0) += 1;
-            if h.cap_hit || h.pulled > bound {
-                ctx.fail("C09.hostile.bound", wit(), format!(
-                    "pulled {} octets{}; allowed: start of the element {} + limit {} + one buffer {} = {}; result {:?}",
-                    h.pulled, if h.cap_hit { " (generator cap of 4 x limit reached: the parse would not have stopped)" } else { "" },
-                    lay.start[p], limit, bufcap, bound, h.result.as_ref().map(|r| r.as_ref().map_err(|e| trunc(e, 80)))));
+            // run in parallel, judge sequentially in enumeration order (deterministic output)
+            let results: Vec<Hostile> = cases.par_iter().map(|c| {
+                let r = &RUNS[c.ri];
+                let limit = limit_at(kind, lay, c.p, r.unit);
+                run_hostile(kind, &doc[..c.p], r.head, &blocks[c.ri], u64::MAX, b"", c.bufcap, c.p as u64 + 4 * limit)
+            }).collect();
+            let mut oc: BTreeMap<&'static str, u64> = BTreeMap::new();
+            let mut nt = 0u64;
+            for (c, h) in cases.iter().zip(&results) {
+                let r = &RUNS[c.ri];
+                let (p, bufcap) = (c.p, c.bufcap);
+                let limit = limit_at(kind, lay, p, r.unit);
+                let bound = lay.start[p] as u64 + limit + bufcap as u64;
+                let wit = || format!("{}/{shape} pos={p} ({}) run={} endless bufcap={bufcap}", kind.name(), lay.class[p], r.name);
+                max_peak = max_peak.max(h.peak);
+                let over = h.pulled as i64 - (lay.start[p] as u64 + limit) as i64;
+                if over > max_over.0 { max_over = (over, wit()) }
+                let by_limit = h.pulled >= limit;
+                if by_limit { nt += 1 }
+                let class = match &h.result {
+                    Err(panic) => { violated += 1; ctx.fail("C09.hostile.nopanic", wit(), panic.clone()); "panic" }
+                    Ok(Ok(_)) => if by_limit { "ok-after-limit" } else { "ok-early" },
+                    Ok(Err(_)) => if by_limit { "error-at-limit" } else { "error-early" },
+                };
+                *oc.entry(class).or_insert(0) += 1;
+                if h.cap_hit || h.pulled > bound {
+                    violated += 1;
+                    ctx.fail("C09.hostile.bound", wit(), format!(
+                        "pulled {} octets{}; allowed: start of the element {} + limit {} + one buffer {} = {}; result {:?}",
+                        h.pulled, if h.cap_hit { " (generator cap of 4 x limit reached: the parse would not have stopped)" } else { "" },
+                        lay.start[p], limit, bufcap, bound, h.result.as_ref().map(|r| r.as_ref().map_err(|e| trunc(e, 80)))));
+                }
             }
+            sp.evals(cases.len() as u64); sp.nontrivial(nt); sp.merge_outcomes(&oc);
         }
-        sp.evals(cases.len() as u64); sp.nontrivial(nt); sp.merge_outcomes(&oc);
-        bound.push(format!("{}: {} offsets, {n_light} streams under the 1 MB limit, {n_heavy} under the 100 MB limit", kind.name(), doc.len() + 1));
+        bound.push(format!("{}: 5 shapes, {n_offsets} offsets, {n_light} streams under the 1 MB limit, {n_heavy} under the 100 MB limit", kind.name()));
     }
+    sp.outcomes_n("oracle-violated", violated);
+    sp.set("shapes", json!(shape_facts));
     sp.set("grammar_classes_offsets", json!(classes_seen));
     sp.set("run_kinds", json!(RUNS.iter().map(|r| r.name).collect::<Vec<_>>()));
     sp.set("max_peak_heap_octets_one_case", json!(max_peak));
     sp.set("max_octets_pulled_beyond_start_plus_limit", json!({"octets": max_over.0, "case": max_over.1}));
-    sp.sample_str(|| "notification pos=0 run=space endless bufcap=8192: the generator yields ' ' forever".into());
-    sp.sample_str(|| String::from_utf8_lossy(&skeleton(Kind::Snapshot)).into_owned());
+    sp.sample_str(|| "notification/full pos=0 run=space endless bufcap=8192: the generator yields ' ' forever".into());
+    sp.sample_str(|| String::from_utf8_lossy(&shapes(Kind::Snapshot)[1].1).into_owned());
     sp.done(true, &bound.join("; "));
 }
 
@@ -1119,20 +1168,23 @@ fn space_hostile_bombs(ctx: &Ctx) {
         let wit = format!("{} {} run of {run_len} x {:?} at pos={p} ({}) then the rest of the document", b.kind.name(), b.name, String::from_utf8_lossy(b.unit), lay.class[p]);
         (h, lay.start[p], limit, doc.len() as u64 + run_len, wit)
     }).collect();
+    let mut violated = 0u64;
     for (&(_, run_len), (h, start, limit, total, wit)) in cases.iter().zip(&results) {
         let bound = *start as u64 + limit + bufcap as u64;
         sp.eval();
         if run_len > *limit { sp.nontrivial(1) }
         match &h.result {
-            Err(panic) => { sp.outcome("panic"); ctx.fail("C09.hostile.nopanic", wit.clone(), panic.clone()) }
+            Err(panic) => { violated += 1; sp.outcome("panic"); ctx.fail("C09.hostile.nopanic", wit.clone(), panic.clone()) }
             Ok(Ok(_)) => sp.outcome("accepted"),
             Ok(Err(_)) => sp.outcome("rejected"),
         }
         if h.cap_hit || h.pulled > bound {
+            violated += 1;
             ctx.fail("C09.hostile.bound", wit.clone(), format!("pulled {} of {total} octets; allowed {start} + {limit} + {bufcap} = {bound}; result {:?}", h.pulled, h.result));
         }
         sp.sample_str(|| format!("{wit} -> pulled {} of {total}, {}", h.pulled, match &h.result { Ok(Ok(_)) => "accepted".to_string(), Ok(Err(e)) => format!("rejected: {}", trunc(e, 60)), Err(p) => p.clone() }));
     }
+    sp.outcomes_n("oracle-violated", violated);
     sp.done(true, &format!("{} bomb shapes, {} streams", bombs.len(), cases.len()));
 }
 
@@ -1215,11 +1267,13 @@ fn space_hostile_mutations(ctx: &Ctx) {
     }
     let fails = Fails::new();
     let mut bound = Vec::new();
+    let mut seed_facts: BTreeMap<String, serde_json::Value> = BTreeMap::new();
     for (si, (name, kind, doc, offs, subst)) in seeds.iter().enumerate() {
+        // what the parser says to the unmodified file is recorded, not judged: the
+        // property does not oblige the parser to accept foreign files
         let mut oc0 = BTreeMap::new();
-        if name != "lolz-notification.xml" && !finite_case(&fails, 0, *kind, doc, &mut oc0, || format!("{name} unmodified")) {
-            ctx.machinery_error(format!("seed {name} is not accepted unmodified"));
-        }
+        let ok0 = finite_case(&fails, 0, *kind, doc, &mut oc0, || format!("{name} unmodified"));
+        seed_facts.insert(name.clone(), json!(if ok0 { "accepted unmodified" } else { "rejected unmodified" }));
         offs.par_chunks(32).for_each(|chunk| {
             let mut oc: BTreeMap<&'static str, u64> = BTreeMap::new();
             let mut n = 0u64; let mut rejected = 0u64;
@@ -1245,7 +1299,8 @@ fn space_hostile_mutations(ctx: &Ctx) {
         });
         bound.push(format!("{name}: {} of {} offsets x {} ops", offs.len(), doc.len(), subst.len() + 2));
     }
-    fails.flush(ctx);
+    fails.flush_into(ctx, &sp);
+    sp.set("seeds", json!(seed_facts));
     sp.sample_str(|| "ripe-notification.xml byte 0 := 0x3e ('>')".into());
     sp.sample_str(|| "ripe-delta.xml[first 3 elements] truncated to 300 octets".into());
     sp.done(true, &bound.join("; "));
@@ -1279,7 +1334,7 @@ fn space_hostile_short(ctx: &Ctx) {
         }
         sp.evals(3 * (hi - lo)); sp.nontrivial(nt); sp.merge_outcomes(&oc);
     });
-    fails.flush(ctx);
+    fails.flush_into(ctx, &sp);
     sp.sample_str(|| "bytes=3c21 ('<!') to each parser".into());
     sp.done(true, &format!("all {total} strings of length <= {n} x 3 parsers"));
 }
@@ -1327,7 +1382,7 @@ fn space_hostile_pairs(ctx: &Ctx) {
         });
         bound.push(format!("{} skeleton ({n} octets)", kind.name()));
     }
-    fails.flush(ctx);
+    fails.flush_into(ctx, &sp);
     sp.sample_str(|| "notification skeleton byte 0 := 0x3c, byte 1 := 0x3e".into());
     sp.done(true, &format!("bound 1 at every offset; bound 2 at {} first offsets x all later offsets x 4x4 values; {}",
         if stride == 1 { "all".to_string() } else { format!("every {stride}th") }, bound.join(", ")));
@@ -1349,8 +1404,16 @@ fn main() {
         ("short", space_hostile_short), ("pairs", space_hostile_pairs), ("mutations", space_hostile_mutations),
         ("bombs", space_hostile_bombs), ("endless", space_hostile_endless),
     ];
+    // The value spaces build their inputs from fixed URI alphabets. If the library under
+    // test refuses one of these protocol-valid URIs, that is reported as a violation
+    // of the round-trip clause (the value cannot even be constructed) and the value
+    // spaces are skipped, instead of letting the explorer itself panic.
+    let mut alphabet_ok = true;
+    for u in HTTPS_URIS { if let Err(e) = guard(|| uri::Https::from_str(u).map_err(|e| e.to_string())).and_then(|r| r) { alphabet_ok = false; ctx.fail("C09.roundtrip.alphabet", u.to_string(), format!("protocol-valid HTTPS URI refused by uri::Https::from_str: {e}")) } }
+    for u in RSYNC_URIS { if let Err(e) = guard(|| uri::Rsync::from_str(u).map_err(|e| e.to_string())).and_then(|r| r) { alphabet_ok = false; ctx.fail("C09.roundtrip.alphabet", u.to_string(), format!("protocol-valid rsync URI refused by uri::Rsync::from_str: {e}")) } }
     for (name, f) in spaces {
         if let Some(o) = &only { if !o.split(',').any(|x| x == name) { continue } }
+        if !alphabet_ok && ["deltas", "origins", "rt_notification", "rt_snapshot", "rt_delta"].contains(&name) { continue }
         let t = std::time::Instant::now();
         if let Err(p) = guard(|| f(&ctx)) { ctx.machinery_error(format!("explorer code for space group {name} panicked: {p}")) }
         if std::env::var("C09_TIMING").is_ok() { eprintln!("[{name}] {:.2}s", t.elapsed().as_secs_f64()) }
